@@ -241,3 +241,219 @@ def gen_put_world(rng, profile="mixed"):
     world = w.world(env=env, uid=uid, cwd=cwd, cmd="put", args=args, opts=opts, argv=put_argv(opts, args),
                     stdin=stdin, randints=[rng.randint(0, 65535) for _ in range(3)], meta=meta)
     return world
+
+
+# ---------------------------------------------------------------------------------------------------
+# worlds with populated trash directories (list / restore / empty / rm)
+# ---------------------------------------------------------------------------------------------------
+
+DATES = ["2020-01-01T00:00:00", "2024-02-29T23:59:59", "2024-03-01T12:00:00", "2024-03-01T12:00:01", "2024-03-02T12:00:00",
+         "2023-12-31T00:00:00", "1999-12-31T23:59:59", "2030-06-15T08:30:00", "2024-3-1T9:5:7", "2024-03-01t12:00:00"]
+BAD_DATES = ["2024-02-30T00:00:00", "yesterday", "", "2024-03-01", "2024-03-01T12:00:60", "2024-03-01T12:00:00 "]
+MALFORMED = ["non-trashinfo", "empty", "truncated", "binary", "non-utf8", "no-path", "no-date", "bad-date", "info-only",
+             "orphan", "odd-stem", "info-is-dir", "info-dangling-link", "dup-keys-crlf"]
+ORIGIN_NAMES = [b"report.txt", b"a b", b"foo", b"foobar", b"foo.o", b"FOO", b"caf\xc3\xa9", b"x%y", b"new\nline", b"-dash", b"d1",
+                b"notes", b"\xff\xfe", b"q?", b"[b]", b"*star"]
+
+
+def payload(rng, w, p, sentinel):
+    k = rng.choice(["file", "file", "tree", "link-out", "tree-links", "empty", "link-dangling"])
+    if k == "file":
+        w.file(p, rng.choice([b"payload", b"p" * 100, b"\x00\x01"]), rng.choice([0o644, 0o600]))
+    elif k == "empty":
+        w.file(p, b"")
+    elif k == "tree":
+        w.dir(p)
+        w.file(p + b"/a", b"A")
+        w.file(p + b"/sub/b", b"B", 0o600)
+    elif k == "link-out":
+        w.link(p, rng.choice([sentinel, os.path.dirname(sentinel), b"../../../" + os.path.basename(os.path.dirname(sentinel))]))
+    elif k == "link-dangling":
+        w.link(p, b"/nonexistent/target")
+    elif k == "tree-links":
+        w.dir(p)
+        w.file(p + b"/keep", b"k")
+        w.link(p + b"/to-sentinel-dir", os.path.dirname(sentinel))
+        w.link(p + b"/sub/to-sentinel", sentinel)
+        w.link(p + b"/sub/dangling", b"nowhere")
+    return k
+
+
+def add_good(rng, w, tdir, base, name, loc, date, sentinel, kinds):
+    """a well-formed pair; `loc` is absolute; it is recorded relative to `base` when base is given"""
+    if base is not None and loc.startswith(base.rstrip(b"/") + b"/") and rng.random() < 0.9:
+        rec = loc[len(base.rstrip(b"/")) + 1:]
+    else:
+        rec = loc
+    from urllib.parse import quote
+    q = quote(rec, "/").encode()
+    style = rng.random()
+    if style < 0.8:
+        text = b"[Trash Info]\nPath=" + q + b"\nDeletionDate=" + date.encode() + b"\n"
+    elif style < 0.9:
+        text = b"[Trash Info]\r\nPath=" + q + b"\r\nDeletionDate=" + date.encode() + b"\r\n"
+    else:
+        text = b"[Trash Info]\nX-Extra=1\nDeletionDate=" + date.encode() + b"\nPath=" + q + b"\nPath=/ignored\nDeletionDate=1990-01-01T00:00:00\n"
+    w.file(tdir + b"/info/" + name + b".trashinfo", text, 0o600)
+    kinds.append(payload(rng, w, tdir + b"/files/" + name, sentinel))
+    return rec
+
+
+def add_malformed(rng, w, tdir, kind, i):
+    n = b"m%d" % i
+    info = tdir + b"/info/"
+    if kind == "non-trashinfo":
+        w.file(info + rng.choice([b"README", b"x.trashinfo~", b"trashinfo", b"a.TRASHINFO"]), b"junk")
+    elif kind == "empty":
+        w.file(info + n + b".trashinfo", b"")
+        w.file(tdir + b"/files/" + n, b"p")
+    elif kind == "truncated":
+        w.file(info + n + b".trashinfo", b"[Trash Info]\nPa")
+        w.file(tdir + b"/files/" + n, b"p")
+    elif kind == "binary":
+        w.file(info + n + b".trashinfo", bytes(range(256)) * 2)
+        w.file(tdir + b"/files/" + n, b"p")
+    elif kind == "non-utf8":
+        w.file(info + n + b".trashinfo", b"[Trash Info]\nPath=" + rng.choice([b"/SBX/w/\xff\xfe", b"w/\xe9t\xe9"]) + b"\nDeletionDate=2024-03-01T12:00:00\n")
+        w.file(tdir + b"/files/" + n, b"p")
+    elif kind == "no-path":
+        w.file(info + n + b".trashinfo", b"[Trash Info]\nDeletionDate=2020-01-01T00:00:00\n")
+        w.file(tdir + b"/files/" + n, b"p")
+    elif kind == "no-date":
+        w.file(info + n + b".trashinfo", b"[Trash Info]\nPath=" + R + b"/w/nodate%d\n" % i)
+        w.file(tdir + b"/files/" + n, b"p")
+    elif kind == "bad-date":
+        w.file(info + n + b".trashinfo", b"[Trash Info]\nPath=" + R + b"/w/baddate%d\nDeletionDate=" % i + rng.choice(BAD_DATES).encode() + b"\n")
+        w.file(tdir + b"/files/" + n, b"p")
+    elif kind == "info-only":
+        w.file(info + n + b".trashinfo", b"[Trash Info]\nPath=" + R + b"/w/infoonly%d\nDeletionDate=2020-01-01T00:00:00\n" % i)
+    elif kind == "orphan":
+        w.file(tdir + b"/files/" + rng.choice([n, b"orphan dir/x", b"foo"]), b"orphan")
+    elif kind == "odd-stem":
+        w.file(info + rng.choice([b".trashinfo", b"..trashinfo", b"...trashinfo"]),
+               b"[Trash Info]\nPath=" + R + b"/w/odd\nDeletionDate=2020-01-01T00:00:00\n")
+    elif kind == "info-is-dir":
+        w.dir(info + n + b".trashinfo")
+        w.file(tdir + b"/files/" + n, b"p")
+    elif kind == "info-dangling-link":
+        w.link(info + n + b".trashinfo", b"nowhere")
+    elif kind == "dup-keys-crlf":
+        w.file(info + n + b".trashinfo", b"Path=" + R + b"/w/dup%d\r\nPath=/other\r\nDeletionDate=2021-05-05T05:05:05\r\nDeletionDate=bad\r\n" % i)
+        w.file(tdir + b"/files/" + n, b"p")
+
+
+def gen_trash_world(rng, cmd, profile="mixed"):
+    """profile: 'mixed' | 'clean' (well-formed entries only) | 'malformed' (many bad neighbours)"""
+    w = W()
+    uid = rng.choice([0, 1000, 1000, 65534])
+    home = w.dir(R + b"/home/u")
+    vols = volume_layout(rng, w, uid, profile)
+    env = {"HOME": home}
+    if rng.random() < 0.2:
+        env["XDG_DATA_HOME"] = rng.choice([home + b"/xdg", b""])
+    sentinel = w.file(R + b"/outside/sentinel", b"must survive")
+    w.file(R + b"/outside/other", b"also")
+    # the trash dirs the commands may visit
+    tdirs = []
+    hx_ = (env.get("XDG_DATA_HOME") or home + b"/.local/share") + (b"/Trash")
+    tdirs.append((hx_, None))
+    for v in vols:
+        top = v + b"/.Trash"
+        if top in w.nodes and w.nodes[top]["k"] != "f":
+            real = top if w.nodes[top]["k"] == "d" else v + b"/real-trash"
+            tdirs.append((real + b"/%d" % uid, v))
+        alt = v + b"/" + uid_dir(uid)
+        if alt not in w.nodes or w.nodes[alt]["k"] == "d":
+            tdirs.append((alt, v))
+    custom = None
+    if rng.random() < 0.25:
+        custom = rng.choice([R + b"/custom-trash", rng.choice(vols) + b"/ct"])
+        tdirs.append((custom, None))
+    names = list(ORIGIN_NAMES)
+    rng.shuffle(names)
+    entries = []
+    kinds = []
+    k = 0
+    for tdir, base in tdirs:
+        if rng.random() < 0.25:
+            continue
+        w.dir(tdir, 0o700)
+        w.dir(tdir + b"/files", 0o700)
+        w.dir(tdir + b"/info", 0o700)
+        ngood = rng.choice([0, 1, 2, 2, 3, 4]) if profile != "malformed" else rng.choice([1, 2, 3])
+        for _ in range(ngood):
+            nm = names[k % len(names)]
+            k += 1
+            area = (base if base is not None else R) + rng.choice([b"/w", b"/w/deep/er", b"/home/u/docs"] if base is None else [b"/stuff", b"/stuff/sub"])
+            loc = area + b"/" + nm
+            tname = nm + rng.choice([b"", b"", b"_1", b"_2"])
+            if tdir + b"/info/" + tname + b".trashinfo" in w.nodes:
+                continue
+            date = rng.choice(DATES)
+            rec = add_good(rng, w, tdir, base, tname, loc, date, sentinel, kinds)
+            entries.append({"tdir": tdir, "name": tname, "loc": loc, "rec": rec, "date": date, "base": base})
+        nbad = {"clean": 0, "mixed": rng.choice([0, 0, 1, 2]), "malformed": rng.choice([2, 3, 5])}[profile]
+        for j in range(nbad):
+            add_malformed(rng, w, tdir, rng.choice(MALFORMED), 100 * len(entries) + j)
+    # some destinations already exist (restore must refuse / overwrite)
+    for e in entries:
+        r = rng.random()
+        if r < 0.12:
+            w.file(e["loc"], b"existing")
+            e["dest"] = "file"
+        elif r < 0.17:
+            w.dir(e["loc"])
+            e["dest"] = "dir"
+        elif r < 0.22:
+            w.link(e["loc"], rng.choice([b"nowhere", sentinel]))
+            e["dest"] = "link"
+        elif r < 0.6:
+            w.dir(os.path.dirname(e["loc"]))
+    cwd = rng.choice([R, home, R + b"/w"] + [v for v in vols] + [os.path.dirname(e["loc"]) for e in entries[:3]])
+    if cwd not in w.nodes or w.nodes[cwd]["k"] != "d":
+        w.dir(cwd)
+    opts, args, stdin = {}, [], None
+    if cmd == "list":
+        if custom and rng.random() < 0.7:
+            opts["userDirs"] = [custom] + ([tdirs[0][0]] if rng.random() < 0.3 else [])
+    elif cmd == "restore":
+        opts["sort"] = rng.choice(["date", "date", "path", "none"])
+        if custom and rng.random() < 0.7:
+            opts["trashDir"] = custom
+        if rng.random() < 0.3:
+            opts["overwrite"] = True
+        if rng.random() < 0.4 and entries:
+            e = rng.choice(entries)
+            opts["path"] = rng.choice([os.path.dirname(e["loc"]), e["loc"], os.path.dirname(os.path.dirname(e["loc"])), b"/", b"w", b"."])
+        n = len(entries)
+        reply = rng.choice([b"0", b"0", b"1", b"0-1", b"0,1", b"1,0", b"", b"x", b"9", b"0-", b"1-2-3", b" 0 ", b"+1", b"0-%d" % max(n - 1, 0),
+                            b"%d" % max(n - 1, 0), b"2,2", b"3-1", b"0,,1"])
+        stdin = None if rng.random() < 0.05 else reply + b"\n"
+    elif cmd == "empty":
+        now = rng.choice(["2024-03-02T12:00:00", "2024-03-01T12:00:00", "2024-03-08T12:00:00", "2025-03-01T12:00:00", "2020-01-01T00:00:00"])
+        env["TRASH_DATE"] = now.encode()
+        y, mo, d = map(int, now[:10].split("-"))
+        H, M, S = map(int, now[11:].split(":"))
+        opts["now"] = [y, mo, d, H, M, S]
+        if rng.random() < 0.6:
+            opts["days"] = rng.choice([0, 1, 1, 2, 7, 30, 365, 10 ** 6, 10 ** 9])
+        if rng.random() < 0.3:
+            opts["dryRun"] = True
+        if rng.random() < 0.3:
+            opts["verbose"] = rng.choice([1, 2])
+        if rng.random() < 0.3:
+            opts["interactive"] = True
+            stdin = None if rng.random() < 0.1 else rng.choice([b"y", b"Y", b"yes", b"n", b"", b"N", b" y", b"x", b"Yes please"]) + b"\n"
+        if custom and rng.random() < 0.6:
+            opts["userDirs"] = [custom]
+    elif cmd == "rm":
+        pats = [b"*", b"foo", b"foo*", b"*.o", b"F*", b"?oo", b"[fF]oo", b"/SBX/*", b"*/w/*", b"nomatch", b"a b", b"caf*", b"[!f]*", b"*\n*", b"d1"]
+        if entries:
+            e = rng.choice(entries)
+            pats += [os.path.basename(e["loc"]), e["loc"], os.path.dirname(e["loc"]) + b"/*"]
+        args = [rng.choice(pats)]
+    world = w.world(env=env, uid=uid, cwd=cwd, cmd=cmd, opts=opts, args=args, stdin=stdin,
+                    meta={"entries": entries, "tdirs": tdirs, "profile": profile, "payload_kinds": kinds, "sentinels": [R + b"/outside"]})
+    from .model import cmd_argv
+    world["argv"] = cmd_argv(world)
+    return world
